@@ -21,6 +21,7 @@ THM_GUARD = [
     "GE.PA.Guard.unchanged_of_related",
     "GE.PA.Guard.covers_Z",
     "GE.PA.Guard.objGOld_not_covering",
+    "GE.PA.Guard.helpers_as_modelled",
 ]
 
 
@@ -43,15 +44,7 @@ def run(chk):
                        "condition values (TempsOk), scope variables come with covering trees (ScopesOk); real trees can only be more marked than the model "
                        "(inherited members read as truthy) and guards are monotone",
                        "the list protocol of RangeListManager (TypeScript) is executed, not modelled"]
-    failed, log = chk.prove("GE.Thm.C06", THEOREMS)
-    for t in failed:
-        chk.violation("proof", f"obligation {t} no longer checks", theorem=t, log=log[-3000:])
-    failed, log = chk.prove("GE.Thm.C06Guard", THM_GUARD)
-    for t in failed:
-        chk.violation("proof", f"obligation {t} no longer checks", theorem=t, log=log[-3000:])
-    ok, log = core.lake_build(["gedriver"])
-    if not ok:
-        raise core.BrokenTie("driver-build", log)
+    chk.model_tie([("GE.Thm.C06", THEOREMS), ("GE.Thm.C06Guard", THM_GUARD)])
     rng = chk.rng.fork("c06")
     # guard strings: model vs implementation on a sample of expressions (full stream lives in C03)
     from . import exprgen as eg
